@@ -125,15 +125,17 @@ func (c *context) SendMsg(m *protocol.Message) error {
 		sock:   s,
 	}
 
-	m.MakeUnique()
-	m.Header = make([]byte, 4)
-	binary.BigEndian.PutUint32(m.Header, newsurv.id)
-
 	s.Lock()
 	if s.closed || c.closed {
 		s.Unlock()
 		return protocol.ErrClosed
 	}
+	// The header is about to be written: if the caller shares the
+	// message, work on a private copy (MakeUnique gives up our reference
+	// to the original, so the original must not be used afterwards).
+	m = m.MakeUnique()
+	m.Header = make([]byte, 4)
+	binary.BigEndian.PutUint32(m.Header, newsurv.id)
 	oldsurv := c.surv
 	newsurv.start(c.recvQLen, c.survExpire)
 	if oldsurv != nil {
